@@ -130,6 +130,12 @@ func (e *SpecEnv) eval(x SExpr) Value {
 			}
 			ii, _ := intInfo(v.Ty)
 			return Value{T: e.vc.neg(v.T, ii), Ty: v.Ty}
+		case "*":
+			et, isPtr := deref(v.Ty)
+			if !isPtr || !isStruct(et) {
+				e.fail("dereference of non pointer-to-struct")
+			}
+			return Value{T: e.vc.loadStruct(e.st, v.T, et), Ty: et}
 		case "^":
 			if e.vc.mode != "bv" {
 				e.fail("^ in int mode")
@@ -498,6 +504,13 @@ func (e *SpecEnv) call(x *SCall) Value {
 				ref = v.T
 			}
 			return Value{T: app("Bool", ">=", ref, e.allocOld), Ty: types.Typ[types.Bool]}
+		case "allocated":
+			v := e.eval(x.Args[0])
+			ref := v.T
+			if v.T.Sort == "Slice" {
+				ref = e.vc.slRef(v.T)
+			}
+			return Value{T: tAnd(app("Bool", "<=", mathInt(0), ref), app("Bool", "<", ref, e.st.alloc)), Ty: types.Typ[types.Bool]}
 		case "sameArray":
 			a, b := e.eval(x.Args[0]), e.eval(x.Args[1])
 			if a.T.Sort != "Slice" || b.T.Sort != "Slice" {
@@ -619,6 +632,12 @@ func (e *SpecEnv) applySpecFunc(sf *SpecFunc, pkg *Pkg, args []SExpr) Value {
 	for i, p := range sf.Params {
 		v := e.eval(args[i])
 		pt := c.resolveType(p.Type)
+		if isUninstantiatedGeneric(pt) {
+			// generic parameter type written without type arguments: keep the
+			// argument's (instantiated) type
+			c.vars[p.Name] = v
+			continue
+		}
 		if v.Fn == nil {
 			v = e.retypeTo(v, pt)
 			if bb, ok := v.Ty.(*types.Basic); ok && bb.Kind() == types.UntypedNil {
@@ -806,4 +825,15 @@ func (e *SpecEnv) quant(x *SQuant) Value {
 		return Value{T: body, Ty: types.Typ[types.Bool]}
 	}
 	return Value{T: Term{S: fmt.Sprintf("(%s (%s) %s)", q, strings.Join(binders, " "), body.S), Sort: "Bool"}, Ty: types.Typ[types.Bool]}
+}
+
+func isUninstantiatedGeneric(t types.Type) bool {
+	if p, ok := t.(*types.Pointer); ok {
+		t = p.Elem()
+	}
+	n, ok := t.(*types.Named)
+	if !ok {
+		return false
+	}
+	return n.TypeParams() != nil && n.TypeParams().Len() > 0 && (n.TypeArgs() == nil || n.TypeArgs().Len() == 0)
 }
